@@ -90,7 +90,7 @@ def main():
         "version": 1,
         "setup_cmd": "./check build",
         "hooks": {
-            "guard": "huginn_net_verif (H1 clock seam, H3 packet-source doorways) and huginn_net_verif_sched (H2 scheduler seam, only ever set together with the first)",
+            "guard": "huginn_net_verif (H1 wall-clock seam, H3 packet-source doorways, H5 std::time::Instant of the packet-path modules read from the simulated monotonic clock) and huginn_net_verif_sched (H2 scheduler seam, only ever set together with the first)",
             "enable": "RUSTFLAGS='--cfg huginn_net_verif [--cfg huginn_net_verif_sched]' cargo build in /verif/sim, whose shadow manifests ([lib] path = /repo/<crate>/src/lib.rs) compile /repo's working tree with huginn-net-verif-rt available; /repo's Cargo.toml/Cargo.lock are not used by the checks",
             "baseline_off_cmd": "cd /repo && cargo test --workspace --no-fail-fast --offline",
             "source_commits": [l.split()[0] for l in HOOK_COMMITS],
